@@ -130,6 +130,26 @@ Theorem mixed_construction : forall V (fields : list (string * V)) pos kw, NoDup
 Proof. exact mixed_construction. Qed.
 Print Assumptions mixed_construction.
 Print Assumptions positional_construction.
+(* consequences used by callers: == is an equivalence on the instances of a class whenever the comparison of field values is one, and a
+   single field with an unequal value makes two instances unequal *)
+Theorem structure_equality_is_an_equivalence : forall V (veqb : V -> V -> bool) fields,
+  (forall x, veqb x x = true) -> (forall x y, veqb x y = true -> veqb y x = true) ->
+  (forall x y z, veqb x y = true -> veqb y z = true -> veqb x z = true) ->
+  (forall a, has_fields V a fields -> run_eq V veqb (generate_eq V fields) a a = Ok true) /\
+  (forall a b, has_fields V a fields -> has_fields V b fields ->
+     run_eq V veqb (generate_eq V fields) a b = Ok true -> run_eq V veqb (generate_eq V fields) b a = Ok true) /\
+  (forall a b c, has_fields V a fields -> has_fields V b fields -> has_fields V c fields ->
+     run_eq V veqb (generate_eq V fields) a b = Ok true -> run_eq V veqb (generate_eq V fields) b c = Ok true ->
+     run_eq V veqb (generate_eq V fields) a c = Ok true).
+Proof.
+  intros V veqb fields R S T. split; [intros a Ha; exact (eq_reflexive V veqb fields a R Ha)|].
+  split; [intros a b; exact (eq_symmetric V veqb fields a b S) | intros a b c; exact (eq_transitive V veqb fields a b c T)].
+Qed.
+Theorem changing_one_field_makes_unequal : forall V (veqb : V -> V -> bool) fields (a b : inst V) f,
+  has_fields V a fields -> has_fields V b fields -> In f fields ->
+  (exists d, veqb (field_of V a f d) (field_of V b f d) = false) -> run_eq V veqb (generate_eq V fields) a b <> Ok true.
+Proof. exact changing_one_field_makes_unequal. Qed.
+Print Assumptions structure_equality_is_an_equivalence.
 Print Assumptions equal_exactly_when_same_type_and_all_fields_equal.
 Print Assumptions equal_instances_hash_equally.
 Print Assumptions falsy_exactly_when_all_fields_are.
